@@ -25,7 +25,10 @@ def rand_groups(rng):
 
 
 def uri_gen(rng):
-    schemes = ["fmprpc", "fmprpc+tls", "FMPRPC", "Fmprpc+TLS", "http", "fmprpc+tl", "fmp", "fmprpc-tls", "f", "fmprpc+tls2"]
+    schemes = ["fmprpc", "fmprpc+tls", "FMPRPC", "Fmprpc+TLS", "http", "fmprpc+tl", "fmp", "fmprpc-tls", "f", "fmprpc+tls2",
+               # every way of being almost one of the two schemes: a bare separator, a cut-off or doubled suffix, stray parts
+               "fmprpc+", "FMPRPC+", "fmprpc++", "fmprpc++tls", "fmprpc+tls+", "fmprpc+t", "fmprpc+tlss", "+tls", "tls", "fmprpc+tls+tls",
+               "fmprpc.tls", "fmprpcs", "fmprpc+ssl", "xfmprpc"]
     hosts = ["h", "example.com", "a-b.c", "10.0.0.1", "", "A.b", "localhost", "x" * 20, "[::1]", "[2001:db8::1]", "[::]", "[fe80::1%25eth0]"]
     ports = [":1", ":443", ":", "", ":65536", ":x", ":1:2", ":12a", "::", ":0"]
     paths = ["", "", "/", "/a/b", "/a_b.c", "/x-y/z.w", "?q", "#f", "/a?b"]
